@@ -64,8 +64,10 @@ func run(s hist.Script, v *vt.V) {
 	u := &s.U
 	reg := ocimem.NewWithConfig(&ocimem.Config{ImmutableTags: s.Immutable})
 	env := ops.NewEnv(u, reg)
+	env.KeepCommitted = true
 	defer env.CloseAll()
 	m := model.New(s.Immutable)
+	m.KeepCommitted = true
 	all := make([]int, len(u.Repos))
 	for i := range all {
 		all[i] = i
@@ -112,7 +114,7 @@ func run(s hist.Script, v *vt.V) {
 
 func cfg() hist.Config {
 	c := hist.Config{MaxOps: 40, ValidRepos: 3, InvalidRepos: true, Uploads: true, Mismatch: true, BadManifests: true,
-		Retype: true, Deletes: true, Lists: true, UnknownResumeID: true, MaxSmall: 40}
+		Retype: true, Deletes: true, Lists: true, UnknownResumeID: true, MaxSmall: 40, BlobTypes: true, KeepCommitted: true}
 	if vt.Thorough() {
 		c.BigLens = []int{8191, 8192, 8193}
 		c.MaxOps = 60
